@@ -130,6 +130,16 @@ class Assume:
         rv = self.eval(R, env)
         if env.dead:
             return []
+        # day <= calendar.monthrange(year, month)[1]  makes (year, month, day) a real calendar date
+        for a, b, aval, o in ((L, R, lv, op), (R, L, rv, {ast.Lt: ast.Gt, ast.Gt: ast.Lt, ast.LtE: ast.GtE, ast.GtE: ast.LtE}.get(type(op), type(op))())):
+            if isinstance(b, ast.Subscript) and isinstance(b.value, ast.Call) and ast.unparse(b.value.func).endswith('monthrange') \
+                    and isinstance(b.slice, ast.Constant) and b.slice.value == 1 and isinstance(aval, Int) and len(b.value.args) == 2:
+                holds = (isinstance(o, ast.Gt) and not truth) or (isinstance(o, ast.LtE) and truth)
+                if holds and aval.lo is not None and aval.lo >= 1:
+                    y = self.eval(b.value.args[0], env)
+                    mth = self.eval(b.value.args[1], env)
+                    if isinstance(y, Int) and isinstance(mth, Int):
+                        env.facts = env.facts | {('validdate', y.iid, mth.iid, aval.iid)}
         d = self.compare(op, lv, rv, env, node)
         if d is not None:
             return [env] if d == truth else []
@@ -142,6 +152,26 @@ class Assume:
             return [env]
         if isinstance(op, (ast.In, ast.NotIn)):
             isin = isinstance(op, ast.In) == truth
+            if lv is NONE and isinstance(R, ast.Tuple) and all(isinstance(x, ast.Name) for x in R.elts):
+                # None [not] in (a, b, c): refine the variables
+                if not isin:
+                    for x in R.elts:
+                        v = env.vars.get(x.id)
+                        if v is NONE:
+                            return []
+                        if isinstance(v, Maybe):
+                            keep = [a for a in v.alts if a is not NONE]
+                            if not keep:
+                                return []
+                            nv = keep[0]
+                            for a in keep[1:]:
+                                nv = Maybe.of(nv, a)
+                            env.vars[x.id] = nv
+                    return [env]
+                vals = [env.vars.get(x.id) for x in R.elts]
+                if all(v is not NONE and not (isinstance(v, Maybe) and any(a is NONE for a in v.alts)) and v is not TOP for v in vals):
+                    return []
+                return [env]
             return self.assume_in(lv, rv, isin, env, L)
         if isinstance(op, (ast.Lt, ast.LtE, ast.Gt, ast.GtE)):
             if isinstance(lv, Int) and isinstance(rv, Int):
@@ -270,6 +300,9 @@ class Assume:
     def assume_int(self, L, lv, R, rv, op, env):
         def setv(node, v):
             if isinstance(node, ast.Name) and node.id in env.vars:
+                old = env.vars[node.id]
+                if isinstance(old, Int) and isinstance(v, Int):
+                    v._iid = old.iid       # the same runtime integer, only better known
                 env.vars[node.id] = v
         lo1, hi1, lo2, hi2 = lv.lo, lv.hi, rv.lo, rv.hi
         mn = lambda a, b: a if b is None else (b if a is None else min(a, b))
